@@ -146,7 +146,7 @@ PROPS = {
         "scale": {"quick": 1, "thorough": 30},
         "floors": {
             "quick": {"cnfs": 1400, "evals": 10000, "conditions": 4000, "wmcs": 2800, "is_sat_partial": 8000, "model_steps": 30000,
-                      "literals": 50000, "hashes": 10000, "residual_repeats": 2000, "hasher_histories": 700, "edge_cases": 8, "models_over_more_than_64_variables": 250},
+                      "literals": 50000, "hashes": 10000, "residual_repeats": 2000, "hasher_histories": 700, "edge_cases": 8, "models_over_more_than_64_variables": 250, "cnfs_from_string": 150},
             "thorough": {"cnfs": 40000},
         },
         "rule": "One evaluation = one generated object checked against its set-theoretic definition: (cnf) Cnf::new keeps each clause as the given literal set and num_vars = max label + 1; eval on every assignment, condition(lit) for every literal (compared with the cofactor of the truth table), brute-force wmc in the real and 64-bit-field semirings against the exact sum over models (incl. the empty formula and formulas with empty clauses, regime edge), is_sat_partial for random partial models (implies 'every extension satisfies'; equivalence on CNFs without tautological clauses, S7); (models) PartialModel and VarSet driven through random set/unset/insert/remove histories against HashMap/HashSet models, all accessors, iterators, constructors, set operations and difference() against an earlier snapshot (which may disagree on variables) compared after every step; (literals) label/polarity round trip for labels up to 2^63-1; (hasher) CnfHasher driven through random push/decide/pop histories, hash(m) for random models m extending the decisions that falsify no clause: a map residual-family -> hash and a map hash -> residual-family must both stay functional (the second only while the product of all occurrence primes is < 2^128, S5). Non-trivial = CNF neither constant nor literal (cnf regime) / every history (others); distinct = distinct inputs.",
